@@ -134,7 +134,8 @@ def _admission(ctx, nz, put, pred):
                    N.show(good[0]) if good else
                    'ALL(demand <= free_capacity), found only: %s' % (
                        vecs or 'no vector comparison that normalises')))
-    ctx.require(positive >= 1, 'truthy return of the admission predicate')
+    ctx.require(positive >= 1, 'truthy return of the admission predicate',
+        rule='C01.1')
 
     # the leaf placement stores only after the predicate returned true
     pgraph = ctx.cfg(put)
@@ -284,7 +285,7 @@ def _pair(ctx, put, remove):
         return [(counts, bad)]
     reached = C.explore(graph, [((0, 0, 0, 0), None)], step)
     rets = [n for n in graph.nodes if n.kind == 'return']
-    ctx.require(rets, 'return statements of %s' % put.qualname)
+    ctx.require(rets, 'return statements of %s' % put.qualname, rule='C01.2')
     for node in rets:
         val = node.ast.value
         truthy = isinstance(val, ast.Constant) and bool(val.value)
@@ -328,7 +329,7 @@ def _pair(ctx, put, remove):
                                      'self.apps.pop(%s)' % keyvar):
             appvar = sub.targets[0].id
     ctx.require(appvar, 'local bound to self.apps[<key>] in %s' %
-                remove.qualname)
+                remove.qualname, rule='C01.2')
 
     def rstep(edge, state):
         if edge.kind == 'exc':
@@ -344,7 +345,7 @@ def _pair(ctx, put, remove):
         return [(counts, bad)]
     reached = C.explore(graph, [((0, 0, 0, 0), None)], rstep)
     states = [s for (n, s) in reached if n is graph.exit]
-    ctx.require(states, 'normal exit of %s' % remove.qualname)
+    ctx.require(states, 'normal exit of %s' % remove.qualname, rule='C01.2')
     problems = []
     for counts, bad in states:
         if bad:
@@ -472,7 +473,7 @@ def _owner(ctx, server, put, remove):
                                '%s.server is written outside Server.put/'
                                'remove' % rtxt)
     ctx.require(sites >= 6, 'writers of the placement state (found %d)' %
-                sites)
+                sites, rule='C01.3')
 
 
 def _single_placement(ctx):
@@ -493,7 +494,8 @@ def _single_placement(ctx):
                    'instance is not placed whenever this placement is '
                    'attempted (states: %s)' % sorted(states),
                    path=path, evals=max(1, len(states)))
-    ctx.require(count >= 3, 'placement calls in the placement loop')
+    ctx.require(count >= 3, 'placement calls in the placement loop',
+        rule='C01.4')
     # Loader.restore_placement: the named exception - server emptied first
     loader = ctx.index.get_class(K.LOADER, 'Loader')
     func = K.one([f for f in loader.live_methods()
@@ -578,7 +580,7 @@ def _conversion(ctx):
                     parsers[key] = dotted_text(elt.func)
                     order.append(key)
     ctx.require(parsers is not None and order is not None,
-                'dimension -> parser table of loader.resources')
+                'dimension -> parser table of loader.resources', rule='C01.5')
     ctx.ob('C01.5', res, None, set(parsers) == set(order) and
            len(order) == len(set(order)),
            'dimension list %s = parser table keys %s' % (
@@ -634,7 +636,8 @@ def _conversion(ctx):
                        '%s is produced by resources(): %s' % (
                            what, N.txt(src)[:60]),
                        construct='%s <- %s' % (what, N.txt(arg)))
-    ctx.require(seen >= 3, 'constructor sites receiving resource vectors')
+    ctx.require(seen >= 3, 'constructor sites receiving resource vectors',
+        rule='C01.5')
 
 
 def _restore(ctx, server, put, rule='C01.6'):
@@ -648,7 +651,8 @@ def _restore(ctx, server, put, rule='C01.6'):
     appvar = func.params()[1]
     puts = K.nodes_calling(graph, lambda c: K.is_meth(c, put.name) and
                            K.recv_text(c) == 'self')
-    ctx.require(puts, 'self.%s call in %s' % (put.name, func.qualname))
+    ctx.require(puts, 'self.%s call in %s' % (put.name, func.qualname),
+        rule=rule)
     zero = [n for n in graph.nodes if any(
         N.txt(t) == '%s.lease' % appvar and isinstance(v, ast.Constant)
         and v.value == 0 for t, v, _k in K.assigns_attr(n))]
@@ -690,7 +694,8 @@ def _units(ctx):
     kb = utils.functions.get('kilobytes')
     mbf = utils.functions.get('megabytes')
     cpu = utils.functions.get('cpu_units')
-    ctx.require(s2b and kb and mbf and cpu, 'unit parsers in utils')
+    ctx.require(s2b and kb and mbf and cpu, 'unit parsers in utils',
+        rule='C01.7')
     # default base of size_to_bytes: the first constant assigned to the
     # local used as base of pow()
     base_name = None
@@ -701,7 +706,7 @@ def _units(ctx):
         if isinstance(sub, ast.BinOp) and isinstance(sub.op, ast.Pow) and \
                 isinstance(sub.left, ast.Name):
             base_name = sub.left.id
-    ctx.require(base_name, 'base ** scale in size_to_bytes')
+    ctx.require(base_name, 'base ** scale in size_to_bytes', rule='C01.7')
     graph = ctx.cfg(s2b)
     consts = []
     for node in graph.nodes:
@@ -778,7 +783,7 @@ def _model_exit(ctx):
                        'and after it was detached from its bucket '
                        '(remove_node)',
                        construct=site.text() + ' <= remove_node')
-    ctx.require(count >= 1, 'del self.servers[...] in Loader')
+    ctx.require(count >= 1, 'del self.servers[...] in Loader', rule='C01.8')
 
 
 def _reported(ctx):
